@@ -228,7 +228,7 @@ BASE: dict = {}
 # ------------------------------------------------------------------------------------------- Sphinx schedules
 
 
-def sphinx_project(R, math_front=False):
+def sphinx_project(R, math_front=False, html_image=False):
     files = {}
     names = []
     nd = R.randint(7, 12)
@@ -270,6 +270,11 @@ def sphinx_project(R, math_front=False):
     files["z_obs2.md"] += "\n[W](wiki:W) [X](wiki:X){.own}\n"
     for nm in names[1:]:
         files[nm + ".md"] += "\n[W](wiki:W)\n"
+    # figure-md in a document WITHOUT front matter works on the project's own configuration object
+    files["a_leak8.md"] = "# Leak8\n\n```{figure-md} fig-w\n<img src=\"k.png\" alt=\"w\">\n\ncaption w\n```\n\n<img src=\"after-figure.png\" alt=\"same document, after the figure\">\n"
+    if html_image:
+        # the project itself enables what figure-md switches on temporarily: it must still be on afterwards
+        conf["myst_enable_extensions"] = conf["myst_enable_extensions"] + ["html_image", "html_admonition"]
     if math_front:
         # the math extensions enabled per document (front matter) instead of for the project
         conf["myst_enable_extensions"] = [e for e in conf["myst_enable_extensions"] if e not in ("dollarmath", "amsmath")]
@@ -327,7 +332,7 @@ def sphinx_build(files, conf, parallel, delay_seed):
 
 def eval_sphinx(ctx, case):
     R = random.Random(case["seed"])
-    files, conf = sphinx_project(R, math_front=bool(case.get("math_front")))
+    files, conf = sphinx_project(R, math_front=bool(case.get("math_front")), html_image=bool(case.get("html_image")))
     try:
         base, wbase, _ = sphinx_build(files, conf, 1, 0)
     except Exception as e:  # noqa: BLE001
@@ -413,7 +418,7 @@ def run_shard(ctx):
             break
     ns = 1 if quick else 40
     for i in range(ns):
-        case = {"kind": "sphinx", "seed": R.getrandbits(40), "math_front": (ctx.shard + i) % 2 == 1, "schedules": [[2, 0], [4, R.randint(1, 999)]] if quick else [[2, 0], [4, R.randint(1, 999)], [4, R.randint(1, 999)], [8, R.randint(1, 999)]]}
+        case = {"kind": "sphinx", "seed": R.getrandbits(40), "math_front": (ctx.shard + i) % 2 == 1, "html_image": (ctx.shard // 2 + i) % 2 == 1, "schedules": [[2, 0], [4, R.randint(1, 999)]] if quick else [[2, 0], [4, R.randint(1, 999)], [4, R.randint(1, 999)], [8, R.randint(1, 999)]]}
         eval_case(ctx, case)
         ctx.case(("sphinx", case["seed"], repr(case["schedules"])), True)
         if i == 0:
